@@ -95,4 +95,62 @@ theorem ieModelK_inv (exact : Bool) (fuel : Nat) (w : World) (g : Nat) (funcs : 
   simp only [ieModelK]
   exact foldl_kinv w _ (fun s f hs => ieGraphK_inv w exact fuel s f hs) _ _ (ieGraphK_inv w exact fuel _ g h0)
 
+theorem rmInitInputsK_inv (w : World) (g : Nat) (h : WF w) : KInv w (rmInitInputsK w g) := by
+  have h0 : KInv w ⟨w, false, []⟩ := ⟨h, rfl⟩
+  simp only [rmInitInputsK]
+  exact (h0.call _).call _
+
+theorem addInitInputsK_inv (w : World) (g : Nat) (h : WF w) : KInv w (addInitInputsK w g) := by
+  have h0 : KInv w ⟨w, false, []⟩ := ⟨h, rfl⟩
+  simp only [addInitInputsK]
+  refine foldl_kinv w _ (fun s v hs => ?_) _ _ h0
+  split
+  · exact hs
+  · exact hs.call _
+
+theorem newIdentity_inv {w0 : World} {s : KSt} (h : KInv w0 s) (o : Nat) : KInv w0 (newIdentity s o) := h.call _
+
+theorem ofixMultiK_inv (w0 : World) (s : KSt) (g : Nat) (h : KInv w0 s) : KInv w0 (ofixMultiK s g) := by
+  unfold ofixMultiK
+  have key : ∀ (l : List (Nat × Nat)) (p : KSt × List Nat), KInv w0 p.1 →
+      KInv w0 (l.foldl (fun (p : KSt × List Nat) (io : Nat × Nat) =>
+        if p.1.raised then p
+        else if !p.2.contains io.2 then (p.1, io.2 :: p.2)
+        else
+          (((((newIdentity p.1 io.2).call (.one (.setName p.1.w.vals.length
+              (some (nameStr ((newIdentity p.1 io.2).w.val io.2).name ++ "_alias_" ++ toString io.1))))).call
+            (.one (.append g p.1.w.nodes.length))).call (.one (.io g .out (.setItem (Int.ofNat io.1) p.1.w.vals.length)))), p.2)) p).1 := by
+    intro l
+    induction l with
+    | nil => intro p hp; exact hp
+    | cons io l ih =>
+      intro p hp
+      simp only [List.foldl_cons]
+      apply ih
+      split
+      · exact hp
+      · split
+        · exact hp
+        · exact (((newIdentity_inv hp _).call _).call _).call _
+  exact key _ (s, []) h
+
+theorem ofixDirectK_inv (w0 : World) (s : KSt) (g : Nat) (h : KInv w0 s) : KInv w0 (ofixDirectK s g) := by
+  unfold ofixDirectK
+  refine foldl_kinv w0 _ (fun s io hs => ?_) _ _ h
+  split
+  · exact hs
+  · exact ((((newIdentity_inv hs _).call _).call _).call _).call _
+
+theorem ofixGraphLikeK_inv (w0 : World) (fuel : Nat) (s : KSt) (g : Nat) (h : KInv w0 s) :
+    KInv w0 (ofixGraphLikeK fuel s g) := by
+  simp only [ofixGraphLikeK]
+  exact foldl_kinv w0 _ (fun s g hs => ofixDirectK_inv w0 s g hs) _ _
+    (foldl_kinv w0 _ (fun s g hs => ofixMultiK_inv w0 s g hs) _ _ h)
+
+theorem ofixModelK_inv (fuel : Nat) (w : World) (g : Nat) (funcs : List Nat) (h : WF w) :
+    KInv w (ofixModelK fuel w g funcs) := by
+  have h0 : KInv w ⟨w, false, []⟩ := ⟨h, rfl⟩
+  simp only [ofixModelK]
+  exact foldl_kinv w _ (fun s f hs => ofixGraphLikeK_inv w fuel s f hs) _ _ (ofixGraphLikeK_inv w fuel _ g h0)
+
 end IrVerif.PassKernel
